@@ -643,6 +643,13 @@ def run(repo: Repo, rep: Report, tier: str) -> None:
                         if unproven and not SAFE_NAME_RE.search(leaf.split(".")[-1]):
                             tainted = [f"{u} (not known to be identifier-like)" for u in unproven]
                     if not tainted:
+                        # escaped by a helper and therefore "clean" - but only as long as nothing removes characters from it afterwards
+                        cut0 = _trim_after_escape(fn, h) if st.kind == DOCSTRING and any(k == "clean" for k, _ in orig) else None
+                        if cut0 is not None:
+                            rep.violation("R15.1", f"{mod.relpath}:{fn.qualname} hole `{norm(h)[:40]}` in {st.kind} of `{t.text.replace(HOLE, '{}').strip()[:50]}`",
+                                          f"{fn.fq}|{st.kind}|{norm(h)[:50]}|trim-after-escape",
+                                          f"characters are removed after the escaping (`{norm(cut0)[:50]}`): an escape sequence can be cut in half (`\\\"\\\"\\\"` -> `\\\"\\\"\\`) and the "
+                                          "dangling backslash escapes the quote that follows the hole - the docstring swallows the code after it", fn.loc(node))
                         continue  # not spec text (identifier-safe or constant): nothing to prove
                     esc = ft.escapes(h)
                     sub = f"{mod.relpath}:{fn.qualname} hole `{norm(h)[:40]}` in {st.kind} of `{t.text.replace(HOLE, '{}').strip()[:50]}`"
